@@ -342,6 +342,13 @@ func (e *Engine) VerifyFunc(pkgPath, key string, modular bool) (rep *FuncReport,
 		for i, n := range resNames {
 			if i < len(ex.Rets) {
 				env.Vars[n] = ex.Rets[i].TV
+				if it := ex.Rets[i].Iter; it != nil {
+					// a storage iterator handed to the caller: the snapshot it walks, its prefix, option flags and position
+					env.Vars[n+".prefix"] = spec.TV{T: it.Prefix, Ty: spec.Type{K: spec.KBytes}}
+					env.Vars[n+".opts"] = spec.TV{T: sx.Int(it.Opts), Ty: spec.Type{K: spec.KInt}}
+					env.Vars[n+".store"] = spec.TV{T: it.Store, Ty: spec.Type{K: spec.KStore}}
+					env.Vars[n+".pos"] = spec.TV{T: ex.Rets[i].T, Ty: spec.Type{K: spec.KInt}}
+				}
 			}
 		}
 		env.Old = v.pre
